@@ -33,7 +33,7 @@ M = [
      "            sel = self.randstate.randint(0, total-1)\n            for t_range in range_l:\n                sel -= int(t_range[1]) - int(t_range[0]) + 1\n                if sel < 0:\n                    break",
      "            t_range = range_l[self.randstate.randint(0, len(range_l)-1)]", ["C20"]),
     ("in_empty_is_true", "src/vsc/model/expr_in_model.py",
-     "            expr = ExprLiteralModel(1 if randsz_skipped else 0, False, 1)", "            expr = ExprLiteralModel(1, False, 1)", ["C01", "C02"]),
+     "            expr = ExprLiteralModel(1 if randsz_skipped else 0, False, 1)", "            expr = ExprLiteralModel(1, False, 1)", ["C02"]),
     ("bounds_negative_as_unsigned", "src/vsc/model/variable_bound_ctx_expr.py",
      "        if v < 0 and not (signed and e_signed):", "        if False:", ["C14"]),
     ("bounds_no_wrap_check", "src/vsc/model/variable_bound_ctx_expr.py",
@@ -191,7 +191,7 @@ M = [
     ("partselect_off_by_one", "src/vsc/model/expr_partselect_model.py",
      "            upper.val(),\n            lower.val()) ", "            upper.val(),\n            lower.val() if int(lower.val()) == 0 else int(lower.val())-1) ", ["C01"]),
     ("unique_skips_last_pair", "src/vsc/model/constraint_unique_model.py",
-     "                for j in range(i+1, len(unique_l)):", "                for j in range(i+1, max(i+2, len(unique_l)-1)):", ["C01"]),
+     "                for j in range(i+1, len(unique_l)):", "                for j in range(i+1, len(unique_l) if i > 0 else max(2, len(unique_l)-1)):", ["C01"]),
     ("implies_as_and", "src/vsc/model/constraint_implies_model.py",
      "        return btor.Implies(cond, body)", "        return btor.And(cond, body)", ["C01", "C02"]),
     ("literal_ctx_width_ignored", "src/vsc/model/expr_literal_model.py",
